@@ -34,7 +34,14 @@ type Spec struct {
 
 var registry = map[string]*Spec{}
 
-func register(s *Spec) { registry[s.ID] = s }
+func register(s *Spec) {
+	inner := s.Run
+	s.Run = func(r *an.Run) {
+		inner(r)
+		loopCoverage(r, s.ID)
+	}
+	registry[s.ID] = s
+}
 
 // Get returns the spec or nil.
 func Get(id string) *Spec { return registry[id] }
